@@ -77,25 +77,20 @@ func (es *evaluationScope) segmentContainsContext(s *ldmodel.Segment, stack eval
 	} else {
 		// always check for included before excluded
 		defaultKindKey, hasDefaultKindKey := getApplicableContextKeyByKind(&es.context, ldcontext.DefaultKind)
-		isOnlyDefaultKind := es.context.Kind() == ldcontext.DefaultKind
 		if hasDefaultKindKey && ldmodel.EvaluatorAccessors.SegmentFindKeyInIncluded(s, defaultKindKey) {
 			return true, nil
 		}
-		if !isOnlyDefaultKind {
-			for i := range s.IncludedContexts {
-				if es.segmentTargetMatchesContext(&s.IncludedContexts[i]) {
-					return true, nil
-				}
+		for i := range s.IncludedContexts {
+			if es.segmentTargetMatchesContext(&s.IncludedContexts[i]) {
+				return true, nil
 			}
 		}
 		if hasDefaultKindKey && ldmodel.EvaluatorAccessors.SegmentFindKeyInExcluded(s, defaultKindKey) {
 			return false, nil
 		}
-		if !isOnlyDefaultKind {
-			for i := range s.ExcludedContexts {
-				if es.segmentTargetMatchesContext(&s.ExcludedContexts[i]) {
-					return false, nil
-				}
+		for i := range s.ExcludedContexts {
+			if es.segmentTargetMatchesContext(&s.ExcludedContexts[i]) {
+				return false, nil
 			}
 		}
 	}
